@@ -221,6 +221,12 @@ def directed(run):
         for k in range(3):
             add("origin/%s/%d" % (tag, k), store_kind="ref", user={"script": [USER_OK] * 2},
                 ops=[reg_op(rng, origin=o, rp_id=r, selection={"rk": "required", "uv": "preferred"}, cd=cd_mode(rng, k)), auth_op(rng, origin=o, rp_id=r, cd=cd_mode(rng, k))])
+    # the insecure-localhost exception and extra client data that looks like another ceremony type's: origin as given, type webauthn.get
+    for o in ("http://localhost:8080", "http://localhost"):
+        add("localhost/%s" % o, store_kind="ref", user={"script": [USER_OK] * 2},
+            ops=[reg_op(rng, origin=o, rp_id=None, allow_localhost=True, selection={"rk": "required", "uv": "preferred"}), auth_op(rng, origin=o, rp_id=None, allow_localhost=True)])
+    add("extra/payment", store_kind="ref", user={"script": [USER_OK] * 2},
+        ops=[reg_op(rng, selection={"rk": "required", "uv": "preferred"}), auth_op(rng, cd={"mode": "extra", "extra": {"payment": {"total": 5}, "n": 1}})])
     # no credential at all / for this RP, with and without consent
     for tag, script in [("consent", USER_OK), ("denied", {"presence": False, "verification": False}), ("uv-missing", {"presence": True, "verification": False}), ("err", {"err": 0x27})]:
         add("empty/" + tag, store_kind="ref", user={"script": [script]}, ops=[auth_op(rng, uv="required")])
